@@ -119,6 +119,10 @@ def run(pid, tier, seed, replay=None):
     notes = {}
 
     def validate(trace, label):
+        if not os.path.exists(trace) or os.path.getsize(trace) == 0:
+            if violations:
+                return {}        # every case crashed: the crashes are the result
+            raise core.ToolError('no trace events recorded (%s)' % label)
         res = core.validate_trace('Trace_Decoder', trace, wd, consts, shards=8, timeout=3000)
         events = load_events(trace)
         v, spec_errs = classify(res, events, pid)
